@@ -7,6 +7,9 @@ import (
 
 	"pgregory.net/rapid"
 
+	"github.com/bytom/bytom/event"
+	"github.com/bytom/bytom/protocol/casper"
+
 	ck "verifharness/chainkit"
 	"verifharness/pbt"
 )
@@ -18,6 +21,9 @@ import (
 // Every vote the node produced or admitted ends up in the supLinks of the stored header
 // of its target (own votes are added to the block, admitted messages are written back,
 // block-carried links are stored with the block), so the stored headers are the record.
+// A second record is what the node announces: every vote it produced or admitted is posted on its
+// event dispatcher for relaying to the peers (casper.ValidCasperSignMsg); a vote the node announced
+// counts as accepted whether or not it reached a header.
 
 var c18Opt = evGenOpt{
 	Tree:      ck.GenOpt{MinBlocks: 8, MaxBlocks: 30, Epochs: []uint64{2, 3}, Validators: []int{3, 4}, Sup: true, NodeKeyChoices: []int{0, 1, 2}},
@@ -85,10 +91,71 @@ func c18Exec(c evCase, x *pbt.Ctx) error {
 		ownKey = ck.PubHex(c.Tree.Params.NodeKey)
 	}
 	seen := map[[4]int]bool{}
+	// votes announced for relaying, per validator key
+	announced := map[string][]recVote{}
+	nAnnounced := 0
+	var sub *event.Subscription
+	var subOf *ck.Node
+	resubscribe := func() error {
+		if subOf == h.n {
+			return nil
+		}
+		s, err := h.n.Disp.Subscribe(casper.ValidCasperSignMsg{})
+		if err != nil {
+			return fmt.Errorf("HARNESS: subscribe: %v", err)
+		}
+		sub, subOf = s, h.n
+		return nil
+	}
+	if err := resubscribe(); err != nil {
+		return err
+	}
+	drainAnnounced := func() {
+		for {
+			select {
+			case obj := <-sub.Chan():
+				m, ok := obj.Data.(casper.ValidCasperSignMsg)
+				if !ok {
+					continue
+				}
+				src, ok1 := w.ByHash[m.SourceHash]
+				tgt, ok2 := w.ByHash[m.TargetHash]
+				if !ok1 || !ok2 {
+					continue
+				}
+				dup := false
+				for _, v := range announced[m.PubKey] {
+					dup = dup || v == (recVote{src, tgt})
+				}
+				if !dup {
+					announced[m.PubKey] = append(announced[m.PubKey], recVote{src, tgt})
+					nAnnounced++
+				}
+			default:
+				return
+			}
+		}
+	}
 	err = h.run(c, func(k int, desc string) error {
+		drainAnnounced()
+		if err := resubscribe(); err != nil { // the node was restarted: a new dispatcher
+			return err
+		}
 		votes, err := recordedVotes(h)
 		if err != nil {
 			return err
+		}
+		for key, vs := range announced {
+			for _, v := range vs {
+				dup := false
+				for _, r := range votes[key] {
+					dup = dup || r == v
+				}
+				if !dup {
+					votes[key] = append(votes[key], v)
+					x.Class("vote-announced-but-not-in-a-stored-header")
+				}
+			}
 		}
 		fin, err := h.finalizedIdx()
 		if err != nil {
@@ -158,6 +225,7 @@ func c18Exec(c evCase, x *pbt.Ctx) error {
 	if h.early > 0 {
 		x.Class("early-votes")
 	}
+	x.Count("announced_votes", nAnnounced)
 	x.NonTrivial = competing || refused > 0
 	var he *hangErr
 	if errors.As(err, &he) {
@@ -167,6 +235,6 @@ func c18Exec(c evCase, x *pbt.Ctx) error {
 }
 
 func TestC18(t *testing.T) {
-	pbt.Run(t, "C18", "block trees of 8-30 blocks (epoch 2-3, competing checkpoints at one height) delivered in generated order to a node whose own key is validator 0-2, with block-carried links and bursts of verification messages from all validators with arbitrary sources (double votes at one height, nested spans); after every event the votes recorded in the stored headers are checked per validator for the two slashing conditions; non-trivial = competing checkpoints at one height or a refused message",
+	pbt.Run(t, "C18", "block trees of 8-30 blocks (epoch 2-3, competing checkpoints at one height) delivered in generated order to a node whose own key is validator 0-2, with block-carried links and bursts of verification messages from all validators with arbitrary sources (double votes at one height, nested spans); after every event the votes recorded in the stored headers, together with the votes the node announced for relaying on its event dispatcher, are checked per validator for the two slashing conditions; non-trivial = competing checkpoints at one height or a refused message",
 		pbt.Options{Checks: pbt.Per(200, 30000), MinClass: map[string]int{"some-message-refused": 5, "competing-checkpoints": 5}}, c18Gen, c18Exec)
 }
